@@ -30,7 +30,8 @@ OperandU(ob, re) == [i \in DOMAIN ob.x |-> IF re = "" THEN ob.u ELSE re]
 StepCase(pool, st) ==
   [helper |-> st.helper, reg |-> "dy", ka |-> pool[st.a].k, kd |-> pool[st.d].k,
    a |-> OperandX(pool[st.a], st.rea), au |-> OperandU(pool[st.a], st.rea),
-   d |-> OperandX(pool[st.d], st.red), du |-> OperandU(pool[st.d], st.red), rt |-> st.rt, at |-> st.at]
+   d |-> OperandX(pool[st.d], st.red), du |-> OperandU(pool[st.d], st.red), rt |-> st.rt, at |-> st.at,
+   sa |-> [i \in DOMAIN pool[st.a].x |-> ""], sd |-> [i \in DOMAIN pool[st.d].x |-> ""], en |-> ""]
 
 \* (2) purity: snapshot sn = <<[x, u, dt, base] per pool object>> taken after the call
 \* readings are normalised rationals on both sides; plain equality (the harness encodes an unrepresentable float by a sentinel)
